@@ -9,6 +9,7 @@ import (
 	"strings"
 
 	"github.com/mimiro-io/datahub/internal/server"
+	dsvc "github.com/mimiro-io/datahub/internal/service/dataset"
 )
 
 // ---------------------------------------------------------------------------------------------
@@ -211,6 +212,30 @@ func (r *histRun) query(q M, idx int) interface{} {
 			return M{"err": err.Error()}
 		}
 		return canonEntity(e)
+	case "catalogue":
+		names := []string{}
+		for _, n := range r.h.Dsm.GetDatasetNames() {
+			names = append(names, n.Name)
+		}
+		sort.Strings(names)
+		metas := M{}
+		for _, n := range strs(getl(q, "names")) {
+			e, err := st.GetEntity("ns0:"+n, []string{"core.Dataset"}, true)
+			if err != nil || e == nil {
+				metas[n] = nil
+				continue
+			}
+			m := M{"deleted": e.IsDeleted}
+			if !e.IsDeleted {
+				m["name"] = e.Properties["ns0:name"]
+				m["items"] = e.Properties["ns0:items"]
+				if pn, ok := e.Properties["ns0:publicNamespaces"]; ok {
+					m["publicNamespaces"] = pn
+				}
+			}
+			metas[n] = m
+		}
+		return M{"names": names, "meta": jsonRoundTrip(metas)}
 	case "related":
 		scope := strs(getl(q, "scope"))
 		limit := geti(q, "limit")
@@ -276,6 +301,13 @@ func (r *histRun) query(q M, idx int) interface{} {
 	return M{"err": "unknown query"}
 }
 
+func jsonRoundTrip(v interface{}) interface{} {
+	b, _ := json.Marshal(v)
+	var o interface{}
+	_ = json.Unmarshal(b, &o)
+	return o
+}
+
 func beUint64(b []byte) uint64 {
 	var v uint64
 	for i := 0; i < 8; i++ {
@@ -308,7 +340,11 @@ func runStoreHist(c *Ctx, in M) (M, interface{}) {
 			op := o.(map[string]interface{})
 			switch gets(op, "op") {
 			case "createDs":
-				ds, err := r.h.Dsm.CreateDataset(gets(op, "name"), nil)
+				var cfg *server.CreateDatasetConfig
+				if pn := getl(op, "publicNamespaces"); len(pn) > 0 {
+					cfg = &server.CreateDatasetConfig{PublicNamespaces: strs(pn)}
+				}
+				ds, err := r.h.Dsm.CreateDataset(gets(op, "name"), cfg)
 				if err == nil {
 					r.dsids[gets(op, "name")] = ds.InternalID
 					op["dsid"] = ds.InternalID
@@ -364,6 +400,31 @@ func runStoreHist(c *Ctx, in M) (M, interface{}) {
 				} else {
 					r.dsids[gets(op, "to")] = r.dsids[gets(op, "name")]
 				}
+			case "dup":
+				ds := r.h.Dsm.GetDataset(gets(op, "ds"))
+				if ds == nil {
+					op["rc"] = "nods"
+					continue
+				}
+				// re-post the CURRENT version of an entity unchanged, bypassing the write-time check
+				cur, err := r.h.Store.GetEntity(gets(op, "id"), []string{gets(op, "ds")}, true)
+				if err != nil || cur == nil || cur.Recorded == 0 {
+					op["rc"] = "nover"
+					continue
+				}
+				cur.Properties = jsonRoundTrip(cur.Properties).(map[string]interface{})
+				t, err := ds.VerifInjectDuplicate(cur)
+				if err != nil {
+					op["rc"] = "err"
+				} else {
+					r.times[i] = int64(t)
+					op["t"] = t
+				}
+			case "compact":
+				cw := dsvc.NewCompactor(r.h.Store, r.h.Dsm, quietLogger())
+				if err := cw.VerifCompact(gets(op, "ds"), geti(op, "threshold")); err != nil {
+					op["rc"] = "err"
+				}
 			case "gc":
 				gc := server.NewGarbageCollector(r.h.Store, r.h.Env)
 				if err := gc.Cleandeleted(); err != nil {
@@ -386,12 +447,13 @@ func runStoreHist(c *Ctx, in M) (M, interface{}) {
 // ---- generator ------------------------------------------------------------------------------
 
 type storeGen struct {
-	kinds  []int // query kinds to draw from: 0 list, 1 changes, 2/3 entity, 4/5 related
-	atOnly bool  // pin every entity/related query to a past instant
-	c      *Ctx
-	ids    []string
-	preds  []string
-	dss    []string
+	allNames []string // every dataset name ever used
+	kinds    []int    // query kinds to draw from: 0 list, 1 changes, 2/3 entity, 4/5 related
+	atOnly   bool     // pin every entity/related query to a past instant
+	c        *Ctx
+	ids      []string
+	preds    []string
+	dss      []string
 }
 
 func (g *storeGen) value() interface{} {
@@ -468,6 +530,9 @@ func (g *storeGen) queries(opIdx int, nops int) []M {
 	ds := g.dss[r.Intn(len(g.dss))]
 	pick := g.kinds[r.Intn(len(g.kinds))]
 	switch pick {
+	case 6:
+		names := append([]string{"core.Dataset", "zz"}, g.allNames...)
+		return []M{{"op": "q", "q": "catalogue", "names": names}}
 	case 0:
 		qs = append(qs, M{"op": "q", "q": "list", "ds": ds, "pages": [][]int{{0}, {1, 1, 1, 1, 1, 1, 1}, {2, 3, 0}, {3, 2, 2, 2}}[r.Intn(4)]})
 	case 1:
@@ -523,6 +588,7 @@ func (g *storeGen) queries(opIdx int, nops int) []M {
 
 var storeProfiles = map[string][]int{
 	"c01": {0, 0, 2, 3}, "c02": {1}, "c03": {4, 5}, "c06": {2, 4, 5}, "all": {0, 1, 2, 3, 4, 5},
+	"c07": {0, 1, 2, 3, 4, 5, 6}, "c19": {6, 6, 0}, "c12": {0, 1, 2, 3, 4, 5}, "c14": {0, 1, 2, 4, 6},
 }
 
 // a dataset with several hundred entities, listed with small pages by following the tokens
@@ -568,8 +634,66 @@ func genStore(c *Ctx, profile string) {
 		for _, d := range g.dss {
 			ops = append(ops, M{"op": "createDs", "name": d})
 		}
+		g.allNames = append([]string{}, g.dss...)
+		mgmt := profile == "c07" || profile == "c19" || profile == "c14"
 		nops := 4 + c.Rng.Intn(12)
 		for k := 0; k < nops; k++ {
+			if mgmt && c.Rng.Intn(4) == 0 {
+				switch m := c.Rng.Intn(8); {
+				case m < 2 && len(g.dss) > 1:
+					i := c.Rng.Intn(len(g.dss))
+					ops = append(ops, M{"op": "deleteDs", "name": g.dss[i]})
+					g.dss = append(g.dss[:i:i], g.dss[i+1:]...)
+				case m < 4:
+					// create a new name or re-create one that was deleted
+					name := []string{"a", "b", "c", "d"}[c.Rng.Intn(4)]
+					known := false
+					for _, d := range g.dss {
+						known = known || d == name
+					}
+					op := M{"op": "createDs", "name": name}
+					if c.Rng.Intn(3) == 0 {
+						op["publicNamespaces"] = []string{"http://s/"}
+					}
+					ops = append(ops, op)
+					if !known {
+						g.dss = append(g.dss, name)
+						g.allNames = append(g.allNames, name)
+					}
+				case m < 5:
+					i := c.Rng.Intn(len(g.dss))
+					to := []string{"e", "f", "a", "b"}[c.Rng.Intn(4)]
+					taken := false
+					for _, d := range g.dss {
+						taken = taken || d == to
+					}
+					ops = append(ops, M{"op": "renameDs", "name": g.dss[i], "to": to})
+					if !taken {
+						g.dss[i] = to
+						g.allNames = append(g.allNames, to)
+					}
+				case m < 6:
+					ops = append(ops, M{"op": "gc"})
+				default:
+					ops = append(ops, M{"op": "reopen"})
+				}
+				for q := 0; q < 1+c.Rng.Intn(3); q++ {
+					ops = append(ops, g.queries(len(ops), nops)...)
+				}
+				continue
+			}
+			if profile == "c12" && c.Rng.Intn(3) == 0 {
+				ds := g.dss[c.Rng.Intn(len(g.dss))]
+				if c.Rng.Intn(2) == 0 {
+					ops = append(ops, M{"op": "dup", "ds": ds, "id": g.ids[c.Rng.Intn(len(g.ids))]})
+				} else {
+					ops = append(ops, M{"op": "compact", "ds": ds, "threshold": []int{1, 2, 3, 100000}[c.Rng.Intn(4)]})
+				}
+				for q := 0; q < 1+c.Rng.Intn(3); q++ {
+					ops = append(ops, g.queries(len(ops), nops)...)
+				}
+				continue
+			}
 			switch r := c.Rng.Intn(10); {
 			case r < 6:
 				ops = append(ops, M{"op": "store", "ds": g.dss[c.Rng.Intn(len(g.dss))], "ents": g.batch()})
@@ -609,7 +733,7 @@ func doHist(c *Ctx, in M) {
 }
 
 func init() {
-	for _, p := range []string{"c01", "c02", "c03", "c06", "all"} {
+	for _, p := range []string{"c01", "c02", "c03", "c06", "all", "c07", "c19", "c12", "c14"} {
 		p := p
 		register("store-"+p, func(c *Ctx) { genStore(c, p) })
 	}
